@@ -3,7 +3,7 @@
    the same whitened quadratic form r^T S^-1 r and the same log-determinant: the two statements below do not
    depend on which factorisation algorithm produced L. *)
 From mathcomp Require Import all_ssreflect all_algebra.
-From TinyGP Require Import Theory.Gauss.
+From TinyGP Require Import Base.Ops Base.LMat Model.GP Theory.MxRefine Theory.QSMDen Theory.QSMMulAbs Theory.Gauss Theory.KalmanAbs Theory.KalmanThy.
 Set Implicit Arguments. Unset Strict Implicit. Unset Printing Implicit Defensive.
 Import Order.TTheory GRing.Theory Num.Theory.
 Local Open Scope ring_scope.
@@ -31,3 +31,36 @@ Theorem C03_chol_unique (R : rcfType) n (L1 L2 : 'M[R]_n) :
   lower_pos L1 -> lower_pos L2 -> L1 *m L1^T = L2 *m L2^T -> L1 = L2.
 Proof. exact: chol_unique. Qed.
 Print Assumptions C03_chol_unique.
+
+(* ---- the Kalman solver ----
+   kalman_S is the covariance of the state-space model the Kalman recursion assumes (S_ij = h_i Phi_i ... Phi_(j+1) Pinf h_j^T
+   for i > j with Phi_k = A_k^T, S_ii = h_i Pinf h_i^T + noise_i, symmetric); kalman_Sk k is its leading k x k block.
+   For ARBITRARY tables Pinf, A, H, noise (no kernel law is used) whose leading blocks are non-singular, the model of
+   kalman_gains / kalman_filter returns innovations v and variances s with  sum v_k^2 / s_k = y^T S^-1 y  and
+   prod s_k = det S : its log likelihood is the exact Gaussian one, i.e. the same as the dense and quasiseparable solvers'. *)
+Theorem C03_kalman_quadratic_exact (F : fieldType) sq lt n m (Pinf : mat F) (A : seq (mat F)) (H : mat F) (dg y : vec F)
+    (X : 'cV[F]_n) :
+  (forall k, (k <= n)%N -> \det (kalman_Sk m Pinf A H dg k) != 0) ->
+  kalman_S n m Pinf A H dg *m X = \col_(i < n) nth 0 y i ->
+  (\col_(i < n) nth 0 y i)^T *m X
+  = (\sum_(k < n) nth 0 (kalman_filter (fops sq lt) n m A H (map snd (kalman_gains (fops sq lt) n m Pinf A H dg)) y) k ^+ 2
+                  / nth 0 (map fst (kalman_gains (fops sq lt) n m Pinf A H dg)) k)%:M.
+Proof. by move=> reg SX; exact: (kalman_quadratic_exact sq lt reg SX). Qed.
+Print Assumptions C03_kalman_quadratic_exact.
+
+Theorem C03_kalman_det_exact (F : fieldType) sq lt n m (Pinf : mat F) (A : seq (mat F)) (H : mat F) (dg : vec F) :
+  (forall k, (k <= n)%N -> \det (kalman_Sk m Pinf A H dg k) != 0) ->
+  \det (kalman_S n m Pinf A H dg) = \prod_(k < n) nth 0 (map fst (kalman_gains (fops sq lt) n m Pinf A H dg)) k.
+Proof. by move=> reg; exact: (kalman_det_exact sq lt reg). Qed.
+Print Assumptions C03_kalman_det_exact.
+
+(* for time-invariant models (constant observation vector, commuting transition matrices, symmetric stationary covariance:
+   all built-in quasiseparable kernels, their scalings, sums and products on scalar coordinates) that covariance is the
+   matrix of Quasisep.to_symm_qsm (p = h Pinf a, q = h, d = h Pinf h) plus the diagonal noise, i.e. the matrix factorised
+   by the quasiseparable and the dense solver *)
+Theorem C03_kalman_cov_is_quasisep_cov (F : fieldType) n m (Pinf : 'M[F]_m) (a : nat -> 'M[F]_m) (h0 : 'rV[F]_m) (nz : nat -> F) :
+  Pinf^T = Pinf -> (forall k l, a k *m a l = a l *m a k) ->
+  kalman_cov n Pinf (fun k => (a k)^T) (fun _ => h0) nz
+  = Dm n (qsd Pinf h0 nz) + denSL n (qsp Pinf a h0) (qsq h0) a + (denSL n (qsp Pinf a h0) (qsq h0) a)^T.
+Proof. exact: kalman_cov_lti. Qed.
+Print Assumptions C03_kalman_cov_is_quasisep_cov.
